@@ -533,3 +533,5 @@ def run(ctx):
     r8(ctx, fs)
     r9(ctx, fs, f)
     ctx.note(SOLUTION_FOUND_NOTE)
+    # planned times are inf_rational values compared with the rational current time (`*pulses.cbegin() <= current_time`): the comparison operators are decided by C15
+    ctx.include('C15')
